@@ -1213,8 +1213,12 @@ func newOfficialRoaringIterator(data []byte) (*officialRoaringIterator, error) {
 	r.headers = data[headerOffset:offsetOffset]
 	// note: offsets are only actually used with the no-run headers.
 	if r.haveRuns {
-		// start out pointed at where the offsets would have been.
+		// start out pointed at the first container: right after the
+		// descriptive header, or after the offset header if there is one.
 		r.currentDataOffset = uint32(offsetOffset)
+		if keys >= noOffsetThreshold {
+			r.currentDataOffset += 4 * keys
+		}
 	} else {
 		r.offsets = data[offsetOffset : offsetOffset+int(r.keys*4)]
 	}
@@ -5093,6 +5097,9 @@ func popcountAndSlice(s, m []uint64) uint64 {
 const (
 	serialCookieNoRunContainer = 12346 // only arrays and bitmaps
 	serialCookie               = 12347 // runs, arrays, and bitmaps
+	// with serialCookie, the offset header is only present when there
+	// are at least this many containers.
+	noOffsetThreshold = 4
 )
 
 func readOfficialHeader(buf []byte) (size uint32, containerTyper func(index uint, card int) byte, header, pos int, haveRuns bool, err error) {
@@ -5235,6 +5242,10 @@ func readOffsets(b *Bitmap, data []byte, pos int, keyN uint32) error {
 }
 
 func readWithRuns(b *Bitmap, data []byte, pos int, keyN uint32) error {
+	if keyN >= noOffsetThreshold {
+		// skip the offset header; containers are stored sequentially.
+		pos += 4 * int(keyN)
+	}
 	if len(data) < pos+runCountHeaderSize {
 		return fmt.Errorf("offset incomplete: len=%d", len(data))
 	}
